@@ -613,6 +613,13 @@ class _PE:
                 if isinstance(n.value, ast.Tuple) and isinstance(n.slice, ast.Constant) and isinstance(n.slice.value, int) \
                         and -len(n.value.elts) <= n.slice.value < len(n.value.elts):
                     return n.value.elts[n.slice.value]
+                # args[:k] / args[a:b] with small constant bounds: the tuple of its elements
+                if isinstance(n.value, ast.Name) and n.value.id == pe.args_p and isinstance(n.slice, ast.Slice) and n.slice.step is None \
+                        and isinstance(n.slice.upper, ast.Constant) and isinstance(n.slice.upper.value, int) and 0 <= n.slice.upper.value <= 4 \
+                        and (n.slice.lower is None or (isinstance(n.slice.lower, ast.Constant) and isinstance(n.slice.lower.value, int) and n.slice.lower.value >= 0)):
+                    lo = 0 if n.slice.lower is None else n.slice.lower.value
+                    return ast.Tuple(elts=[ast.Subscript(value=ast.Name(id=pe.args_p, ctx=ast.Load()), slice=ast.Constant(value=i), ctx=ast.Load())
+                                           for i in range(lo, n.slice.upper.value)], ctx=ast.Load())
                 return n
 
             def visit_IfExp(self, n):
@@ -976,7 +983,8 @@ def check_terms(idx, rep: Report, base: ClassInfo, first, second):
     # T5: handlers serving the operator-second order
     def binary_kind(tf: str) -> Optional[str]:
         leaf = tf.split(".")[-1]
-        return leaf if leaf in ("add", "sub", "matmul", "mul") else None
+        leaf = {"true_divide": "div", "divide": "div", "multiply": "mul", "subtract": "sub"}.get(leaf, leaf)
+        return leaf if leaf in ("add", "sub", "matmul", "mul", "div") else None
 
     for tf, (mname, fn) in sorted(second.items()):
         kind = binary_kind(tf)
